@@ -2,7 +2,7 @@
 
 META = {
     'level': 'exploration',
-    'rule': ('Random task graphs over 8 diagram task types (two declared cache=None, one also max_parallel) (scalar, single-task, list/tuple/dict and nested-collection '
+    'rule': ('Random task graphs over 9 diagram task types (two declared cache=None, one also max_parallel, one container-like type whose instances can be falsy) (scalar, single-task, list/tuple/dict and nested-collection '
              'parameters, depth <= 4, 1-4 top-level tasks); build_task_diagram output is parsed back (class blocks, '
              'field lines, run line, arrows with "many" flag) and compared with the harness\'s own traversal of the '
              'generated graph description: multiset of class blocks == reachable types (one each), field lines == '
@@ -53,7 +53,7 @@ def realize(node):
     if 't' in node:
         kw = {f: realize(tr) for f, tr in node['f'].items()}
         T = DTYPES[node['t']]
-        first = {'DF': 'n', 'DC': 'v', 'DB': 'label', 'DA': 'x', 'DD': None, 'DE': 'flag', 'DG': 'tag', 'DH': 'n'}[node['t']]
+        first = {'DF': 'n', 'DC': 'v', 'DB': 'label', 'DA': 'x', 'DD': None, 'DE': 'flag', 'DG': 'tag', 'DH': 'n', 'DZ': 'n'}[node['t']]
         if first in ('label', 'tag'):
             kw[first] = str(node['scalar'])
         elif first == 'flag':
